@@ -12,7 +12,8 @@ FieldsComplete == TRUE
 Tab == INSTANCE IsaAliasTab
 LitTab == Tab!MkLitTab
 Lits == {LitTab[t].l : t \in 1..Len(LitTab)}
-FormTab == Tab!MkFormTab(LitTab)
+FldTab == Tab!MkFldTab
+FormTab == Tab!MkFormTab
 INSTANCE IsaAlias
 ASSUME LitsSane
 =============================================================================
